@@ -217,10 +217,19 @@ func runHistory(c *vf.Ctx, ks *ksCache, start uint64, hist []op, src []byte, mer
 	if err != nil {
 		return "", true, "NewUnauthenticatedCipher rejects a valid key/nonce | " + err.Error()
 	}
+	// object C always gets a destination that is LONGER than the source (allowed: "dst must
+	// be at least as long as src"); only the first len(src) bytes are output, and the stream
+	// position afterwards must be the same as for the other two
+	cc, err := newCipher(ks.key, ks.nonce)
+	if err != nil {
+		return "", true, "NewUnauthenticatedCipher rejects a valid key/nonce | " + err.Error()
+	}
+	dstC := make([]byte, 5000+41)
+	srcC := make([]byte, 5000)
 	pos := uint64(0)
 	if start != 0 {
 		// initial seek (not counted as an operation of the history)
-		for _, x := range []*chacha20.Cipher{ci, cb} {
+		for _, x := range []*chacha20.Cipher{ci, cb, cc} {
 			if p, v, _ := vf.Protect(func() { x.SetCounter(uint32(start)) }); p {
 				return "", true, fmt.Sprintf("SetCounter on a fresh Cipher panics | start=%d panic=%v", start, v)
 			}
@@ -245,6 +254,11 @@ func runHistory(c *vf.Ctx, ks *ksCache, start uint64, hist []op, src []byte, mer
 			if p == wantPanic && pb != wantPanic {
 				p, v = pb, vb
 			}
+			copy(srcC, src[:o.n])
+			pc, vc, _ := vf.Protect(func() { cc.XORKeyStream(dstC[:o.n+41], srcC[:o.n]) })
+			if p == wantPanic && pc != wantPanic {
+				p, v = pc, vc
+			}
 			if p != wantPanic {
 				if p {
 					return "", true, fmt.Sprintf("XORKeyStream panics although 2^32 blocks are not exceeded | step %d pos=%d n=%d panic=%v", i, pos, o.n, v)
@@ -262,6 +276,9 @@ func runHistory(c *vf.Ctx, ks *ksCache, start uint64, hist []op, src []byte, mer
 				}
 				if bufB[j] != src[j]^k[j] {
 					return "", true, fmt.Sprintf("XORKeyStream in place (dst == src) != src XOR RFC 8439 key stream at the absolute position | step %d pos=%d n=%d first differing byte %d", i, pos, o.n, j)
+				}
+				if dstC[j] != src[j]^k[j] {
+					return "", true, fmt.Sprintf("XORKeyStream into a dst longer than src != src XOR RFC 8439 key stream at the absolute position (or the stream position was disturbed by an earlier such call) | step %d pos=%d n=%d first differing byte %d", i, pos, o.n, j)
 				}
 				if srcA[j] != src[j] {
 					return "", true, fmt.Sprintf("XORKeyStream modifies src | step %d pos=%d n=%d byte %d", i, pos, o.n, j)
@@ -300,6 +317,10 @@ func runHistory(c *vf.Ctx, ks *ksCache, start uint64, hist []op, src []byte, mer
 			pb, vb, _ := vf.Protect(func() { cb.SetCounter(uint32(target)) })
 			if p == wantPanic && pb != wantPanic {
 				p, v = pb, vb
+			}
+			pc, vc, _ := vf.Protect(func() { cc.SetCounter(uint32(target)) })
+			if p == wantPanic && pc != wantPanic {
+				p, v = pc, vc
 			}
 			if p != wantPanic {
 				if p {
